@@ -6,20 +6,22 @@
 #   /verif/seeded/<dest-name>/ and leaves the worktree clean.
 set -u
 WT="$1"; SEED="$2"; DEST="/verif/seeded/$3"
+TMPP=$(mktemp -u /tmp/confirm.XXXXXX)
+trap 'rm -f $TMPP.*' EXIT
 cd "$WT" || exit 2
 git checkout -q -- yamlpath
 git status --short -- yamlpath | grep -q . && { echo "worktree not clean"; exit 2; }
-timeout 120 /venv/bin/python "$SEED/demo.py" < /dev/null > /tmp/confirm.clean.out 2>&1; RC_CLEAN=$?
+timeout 120 /venv/bin/python "$SEED/demo.py" < /dev/null > $TMPP.clean.out 2>&1; RC_CLEAN=$?
 git apply --check "$SEED/patch.diff" || { echo "PATCH DOES NOT APPLY"; exit 1; }
 git apply "$SEED/patch.diff"
-/verif/tools/baseline_check.py "$WT" > /tmp/confirm.base.out 2>&1; RC_BASE=$?
-timeout 120 /venv/bin/python "$SEED/demo.py" < /dev/null > /tmp/confirm.mut.out 2>&1; RC_MUT=$?
+/verif/tools/baseline_check.py "$WT" > $TMPP.base.out 2>&1; RC_BASE=$?
+timeout 120 /venv/bin/python "$SEED/demo.py" < /dev/null > $TMPP.mut.out 2>&1; RC_MUT=$?
 git checkout -q -- yamlpath
-echo "demo(clean)=$RC_CLEAN baseline(with patch)=$RC_BASE [$(head -1 /tmp/confirm.base.out)] demo(with patch)=$RC_MUT"
+echo "demo(clean)=$RC_CLEAN baseline(with patch)=$RC_BASE [$(head -1 $TMPP.base.out)] demo(with patch)=$RC_MUT"
 if [ $RC_CLEAN -eq 0 ] && [ $RC_BASE -eq 0 ] && [ $RC_MUT -ne 0 ]; then
   mkdir -p "$DEST"
   cp "$SEED/patch.diff" "$SEED/demo.py" "$DEST/"
-  /venv/bin/python - "$SEED/meta.json" "$DEST/meta.json" "$RC_CLEAN" "$RC_MUT" "$(head -1 /tmp/confirm.base.out)" "$(tail -3 /tmp/confirm.mut.out | tr '\n' ' ')" <<'EOF'
+  /venv/bin/python - "$SEED/meta.json" "$DEST/meta.json" "$RC_CLEAN" "$RC_MUT" "$(head -1 $TMPP.base.out)" "$(tail -3 $TMPP.mut.out | tr '\n' ' ')" <<'EOF'
 import json, sys
 src, dst, rc_clean, rc_mut, base, mutout = sys.argv[1:7]
 try:
@@ -38,5 +40,5 @@ json.dump(meta, open(dst, "w"), indent=1)
 EOF
   echo "CONFIRMED -> $DEST"
 else
-  echo "NOT CONFIRMED"; tail -5 /tmp/confirm.mut.out; exit 1
+  echo "NOT CONFIRMED"; tail -5 $TMPP.mut.out; exit 1
 fi
